@@ -45,6 +45,9 @@ def create_service(config_path: str, sname: str):
 
     try:
         config = read_config(config_path)
+        if sname in service_name_handler.read_service_mapping():
+            # refuse before anything is created, otherwise the new service folder is left behind without a name
+            raise KeyError(f"The service name {sname} already exists.")
         __client_service = Service()
         sid = __client_service.handle_create_config(config)
         service_name_handler.record_sname_id_pair(sname, sid)
